@@ -862,6 +862,13 @@ func (e *SpecEnv) call(x *Expr) SVal {
 			n := map[string]int{"sha256": 32, "sha384": 48, "sha512": 64}[fn.Name]
 			hf := c.declFun("hash:"+fn.Name, []string{"BV"}, "(Array Int Int)")
 			return ghostVal(app("bv.of", app(hf, a.T), "0", num(int64(n))), "BV")
+		case "istype":
+			a := e.eval(args[0])
+			t := e.eval(args[1])
+			if t.IsType == nil {
+				e.fail("istype(x, Type)")
+			}
+			return goVal(fmt.Sprintf("(= (i.tid %s) %d)", a.T, c.typeID(t.IsType)), tBool)
 		case "dyn":
 			// dyn(x, *T): the *T held by interface value x, or nil when x holds something else
 			a := e.eval(args[0])
@@ -873,6 +880,11 @@ func (e *SpecEnv) call(x *Expr) SVal {
 				e.fail("dyn supports pointer types only")
 			}
 			return goVal(ite(fmt.Sprintf("(= (i.tid %s) %d)", a.T, c.typeID(t.IsType)), "(i.ref "+a.T+")", "0"), t.IsType)
+		case "store":
+			a, i, v := e.eval(args[0]), e.eval(args[1]), e.eval(args[2])
+			r := a
+			r.T = sto(a.T, i.T, v.T)
+			return r
 		case "same":
 			// same(a, b): identical slice headers / identical values
 			a, b := e.eval(args[0]), e.eval(args[1])
